@@ -1,6 +1,7 @@
 // Verification shim: flat C ABI over the C++ layers of the working tree.
 // Nothing here implements arithmetic; it only forwards to the library.
 #include "shim.hpp"
+#include <vector>
 
 using embedded_pairing::core::exponentiate;
 using embedded_pairing::core::fp_inverse;
@@ -559,6 +560,20 @@ static long vf_pairing_sum_impl(void* o, size_t na, void* g1s, void* g2s, size_t
         pp[i].g1 = (embedded_pairing_bls12_381_g1affine_t*) &g1[na + i];
         pp[i].g2 = (embedded_pairing_bls12_381_g2prepared_t*) &pr[i];
     }
+    // dirty & 2: pairs whose second (first) argument is byte-identical to the previous pair's refer to the same object, as a caller
+    // computing e(P1,Q) * e(P2,Q) would pass them (only when the points are not replaced between rounds)
+    if ((dirty & 2) && g1s2 == nullptr) {
+        for (size_t i = 1; i < na; i++) {
+            if (memcmp(&g2[i], &g2[i - 1], sizeof(G2Affine)) == 0) ap[i].g2 = ap[i - 1].g2;
+            if (memcmp(&g1[i], &g1[i - 1], sizeof(G1Affine)) == 0) ap[i].g1 = ap[i - 1].g1;
+        }
+        for (size_t i = 1; i < np; i++) {
+            if (memcmp(&pr[i], &pr[i - 1], sizeof(G2Prepared)) == 0) pp[i].g2 = pp[i - 1].g2;
+        }
+    }
+    std::vector<void*> want;
+    for (size_t i = 0; i != na; i++) { want.push_back(ap[i].g1); want.push_back(ap[i].g2); }
+    for (size_t i = 0; i != np; i++) { want.push_back(pp[i].g1); want.push_back(pp[i].g2); }
     for (int r = 0; r != rounds; r++) {
         Fq12* out = ((Fq12*) o) + r;
         if (r != 0 && g1s2 != nullptr) {
@@ -574,10 +589,10 @@ static long vf_pairing_sum_impl(void* o, size_t na, void* g1s, void* g2s, size_t
         }
         // the public fields of the caller's records are inputs
         for (size_t i = 0; i != na; i++) {
-            if (ap[i].g1 != (embedded_pairing_bls12_381_g1affine_t*) &g1[i] || ap[i].g2 != (embedded_pairing_bls12_381_g2affine_t*) &g2[i]) rv |= 1;
+            if ((void*) ap[i].g1 != want[2 * i] || (void*) ap[i].g2 != want[2 * i + 1]) rv |= 1;
         }
         for (size_t i = 0; i != np; i++) {
-            if (pp[i].g1 != (embedded_pairing_bls12_381_g1affine_t*) &g1[na + i] || pp[i].g2 != (embedded_pairing_bls12_381_g2prepared_t*) &pr[i]) rv |= 2;
+            if ((void*) pp[i].g1 != want[2 * na + 2 * i] || (void*) pp[i].g2 != want[2 * na + 2 * i + 1]) rv |= 2;
         }
     }
     free(ap);
